@@ -38,13 +38,17 @@ Section WithPayloader.
       end
     end.
 
+  (* the room offered to the payloader: the MTU less the header (with the abs-send-time block when enabled);
+     nothing when the MTU is not larger than that - the subtraction is done in uint16 and must not wrap (D37) *)
+  Definition pz_budget (p : pktz) : Z :=
+    if pz_mtu p <? abs_overhead (pz_abs p) then 0 else pz_mtu p - abs_overhead (pz_abs p).
+
   (* returns the new state and the packets (nil is the empty list) *)
   Definition packetize (p : pktz) (payload : list Z) (samples : Z) (now_nano : Z) : pktz * list packet :=
     match payload with
     | [] => (p, [])
     | _ =>
-      let overhead := abs_overhead (pz_abs p) in
-      let frags := pay (u16 (pz_mtu p - overhead)) payload in
+      let frags := pay (pz_budget p) payload in
       let '(s', pkts) := build_packets p (pz_seq p) frags in
       let p' := mkPktz (pz_mtu p) (pz_pt p) (pz_ssrc p) (u32 (pz_ts p + samples)) (pz_abs p) s' in
       match pkts with
